@@ -535,6 +535,7 @@ func C03(p *engine.Prog, r *engine.Report) {
 	c03R2(p, r, ctx)
 	c03R3(p, r, vb)
 	c03R6(p, r, vb)
+	c03R7(p, r)
 }
 
 func c03R2(p *engine.Prog, r *engine.Report, ctx *c03ctx) {
@@ -913,4 +914,41 @@ func c03R6(p *engine.Prog, r *engine.Report, vb *ssa.Function) {
 	}
 	r.Check(ok, "C03-R6", "validateBlock|body constrained on every accepting path", p.Pos(vb.Pos()), fmt.Sprintf("%d checks on block.Body; every success return behind one", len(bodyGuards)), "a block is accepted at "+strings.Join(bad, ", ")+" on a path that never looks at its body: insertBlock then stores and indexes whatever transactions it carries (an empty header with a foreign body passes the hash comparison)")
 	r.Floor("C03-R6", 1, "validateBlock")
+}
+
+// c03R7: the block hash covers the proposed part whenever it is present. The empty arm of validateBlock
+// accepts on hash equality with the regenerated empty block and IsEmpty() only looks at the empty part,
+// so a header carrying both parts is refused only because Header.Hash() hashes the proposed part: every
+// path of Header.Hash that hashes the empty part lies behind ProposedHeader == nil.
+func c03R7(p *engine.Prog, r *engine.Report) {
+	f := mustFunc(p, r, "blockchain/types", "Header.Hash")
+	if f == nil {
+		return
+	}
+	recv := ssa.Value(f.Params[0])
+	g := guardsWhere(f, func(cond ssa.Value) (bool, bool, string) {
+		x, nonNilOnTrue, ok := engine.NilCheck(cond)
+		if !ok {
+			return false, false, ""
+		}
+		if base, isP := loadOfField(x, "Header", "ProposedHeader"); isP && engine.Origin(base) == recv {
+			return true, !nonNilOnTrue, "ProposedHeader == nil"
+		}
+		return false, false, ""
+	})
+	n, ok := 0, len(g) > 0
+	for _, c := range engine.Calls(f) {
+		if len(c.Common().Args) == 0 {
+			continue
+		}
+		if _, isE := loadOfField(c.Common().Args[0], "Header", "EmptyBlockHeader"); !isE {
+			continue
+		}
+		n++
+		if !engine.OnlyThroughPass(f, c.Block(), g) {
+			ok = false
+		}
+	}
+	r.Check(ok && n > 0, "C03-R7", "Header.Hash|the empty part is hashed only when no proposed part is present", p.Pos(f.Pos()), "behind ProposedHeader == nil", "a header carrying both parts hashes to its empty part: combined with IsEmpty() (empty part first) a forged proposed part rides along an honest empty header through validateBlock's hash comparison and is persisted")
+	r.Floor("C03-R7", 1, "Header.Hash")
 }
